@@ -39,6 +39,9 @@ def cases(draw):
     params = [[PN[k], (str(draw(st.integers(10, 19))) if k >= n - ndef else None)] for k in range(n)]
     # body: optional local statements then return
     atoms = [p[0] for p in params] + ["K", "helper(2)", "3"]
+    modattr = draw(st.integers(0, 3)) == 0
+    if modattr:
+        atoms += ["kx.v", "kx.v"]  # the body needs `import kx`, which rope has to add wherever it inlines the body
     nlocal = draw(st.integers(0, 2))
     body = []
     for k in range(nlocal):
@@ -59,6 +62,9 @@ def cases(draw):
             "pos": draw(st.sampled_from(["stmt", "assign", "nested", "nested", "print"])),
             "module": draw(st.sampled_from(["lib", "use", "use"])),
             "qualified": draw(st.booleans()),
+            # where the call stands: module level, or inside a function of its own without / with a local named like a
+            # local of the inlined body (t0), which the inlined code must not overwrite
+            "host": draw(st.sampled_from(["module", "module", "func", "func_clash"])),
         })
     return {
         "kind": kind,
@@ -72,6 +78,8 @@ def cases(draw):
         "only_current": draw(st.integers(0, 3)) == 0,
         "query": draw(st.sampled_from(["def", "site"])),
         "capture": draw(st.booleans()),
+        "modattr": modattr,
+        "prefix_import": draw(st.booleans()),
     }
 
 
@@ -109,7 +117,10 @@ def render(case):
             ref_l, ref_q = local + call, qual + call
         ref = ref_l if s["module"] == "lib" or not s["qualified"] else ref_q
         k += 1
-        if s["pos"] == "stmt" and kind != "variable":
+        if s.get("host", "module") != "module" and kind != "variable":
+            clash = s["host"] == "func_clash"
+            line = "def h%d():\n%s    r%d = %s\n    return r%d%s\nprint(h%d())\n" % (k, "    t0 = 50\n" if clash else "", k, ref, k, " + t0" if clash else "", k)
+        elif s["pos"] == "stmt" and kind != "variable":
             line = "%s\n" % ref
         elif s["pos"] == "assign":
             line = "r%d = %s\nprint(r%d)\n" % (k, ref, k)
@@ -128,7 +139,15 @@ def render(case):
         # the host modules own a t0 of their own: inlined locals must not capture it
         lib = lib.replace("w = 6\n", "w = 6\nt0 = 100\n", 1) + "print('t0', t0)\n"
         use = use.replace(imp, imp + "t0 = 200\n", 1) + "print('t0', t0)\n"
-    return {"lib.py": lib, "use.py": use, "main.py": "import lib\nimport use\n"}
+    files = {"lib.py": lib, "use.py": use, "main.py": "import lib\nimport use\n"}
+    if case.get("modattr"):
+        files["lib.py"] = "import kx\n" + files["lib.py"]
+        files["kx.py"] = "v = 3\n"
+        if case.get("prefix_import"):
+            # a module whose name merely starts with kx is imported where the body gets inlined
+            files["kxy.py"] = "u = 8\n"
+            files["use.py"] = "import kxy\n" + files["use.py"] + "print(kxy.u)\n"
+    return files
 
 
 def describe(case):
